@@ -1,24 +1,24 @@
 CONSTANTS
-  MaxId = 1
+  MaxId = 3
   ZeroIncBug = FALSE
   OpenCleanupBug = FALSE
   OpenRaceBug = FALSE
   W = 1
   B = 1
-  Openers = {}
-  MaxWrite = 2
+  Openers = {0}
+  MaxWrite = 1
   MaxRead = 1
   Budget = 5
   WireCap = 3
   DoExport = TRUE
   DeadlineBug = "none"
-  Acts = {"wstart","rstart","setwd","setrd","write","read"}
-  Modes = {"clear","past","far","soon"}
-  DlEnds = {0}
-  PreEst = TRUE
+  Acts = {"open","openc","cancel","accept","write","read","close"}
+  Modes = {}
+  DlEnds = {}
+  PreEst = FALSE
   BlockOnRoom = FALSE
   IdTop = FALSE
-  TrackKinds = {"wsp0","wss0","rsp0","rss0","wfollow0","rfollow0"}
+  TrackKinds = {"oc0"}
 SPECIFICATION Spec
 VIEW view
 INVARIANT InvTokens InvInOrder InvEOFComplete InvNoCrossTalk InvNoViolation InvWindow InvWire Export
